@@ -30,6 +30,7 @@ def run(ctx):
     from . import scope as _scope
     ctx.guard(_scope.containment, ctx, 'C20-CONTAIN')
     ctx.guard(emission_loops, ctx)
+    ctx.guard(stateless, ctx)
     ctx.assume('completeness of the generated schema against a concrete model is not decided')
     return ('Schema type-check of gen_xsd_schema navigations; agreement of get_type_name / build_type / build_core_type '
             'dispatch tables; succession-order reader rule on R56/R46; scope predicates; attribute mapping patterns; '
@@ -161,11 +162,24 @@ def dispatch(ctx):
         else:
             r.check(not returned and not bases, '%s has no declaration' % name, bc, construct=XSD + ':build_core_type', key='core ' + name,
                     msg='build_core_type declares a type for %s (%s)' % (name, bases))
-    bu = repo.func(XSD + ':build_user_type')
-    ok = pm.contains('_U = nav_one(s_udt).S_DT[17]()', bu) and pm.contains('_B = nav_one(s_udt).S_DT[18]()', bu) and \
-        pm.contains('_N = get_type_name(_B)', bu)
-    r.check(ok, 'a user type restricts the name of its base type (R18), named by its own S_DT (R17)', bu, construct=XSD + ':build_user_type', key='user',
-            msg='build_user_type does not take its name over R17 and its base over R18')
+    # value flow in the normal form: what reaches name= of the simpleType and base= of its restriction
+    from .common import resolve_locals
+    bu = repo.nfunc(XSD + ':build_user_type')
+    UP = param_names(bu, skip_self=False)[0]
+    names_, bases_ = [], []
+    for c_ in [n for n in ast.walk(bu) if isinstance(n, ast.Call) and dotted(n.func) in ('ET.Element', 'ET.SubElement')]:
+        for k_ in c_.keywords:
+            if k_.arg == 'name':
+                names_.append(src(resolve_locals(bu, k_.value, pure_only=False)))
+            if k_.arg == 'base':
+                bases_.append(src(resolve_locals(bu, k_.value, pure_only=False)))
+    want_name = ['nav_one(%s).S_DT[17]().name' % UP]
+    want_base = ['get_type_name(nav_one(%s).S_DT[18]())' % UP]
+    loops_ = [n for n in ast.walk(bu) if isinstance(n, (ast.While, ast.For))]
+    r.check([x.replace('.Name', '.name') for x in names_] == want_name and bases_ == want_base and not loops_,
+            'a user type restricts the name of its IMMEDIATE base type (R18), named by its own S_DT (R17)', bu, construct=XSD + ':build_user_type', key='user',
+            msg='build_user_type declares name=%s base=%s%s; expected name=%s over R17 and base=%s: the type name of the immediate base over R18 (a '
+                'type stacked on another user type restricts THAT type, not its core type)' % (names_, bases_, ' inside a loop' if loops_ else '', want_name[0], want_base[0]))
 
 
 def enum_order(ctx):
@@ -208,6 +222,35 @@ def scope(ctx):
                 msg='%s does not apply %s to every selected %s' % (fn.name, builder, kind))
     from . import scope as _scope
     _scope.globality(r, repo)
+
+
+def stateless(ctx):
+    '''every generation reads the model afresh: the builders keep nothing between calls (no memoising decorator, no mutable default
+    argument, no module-level container they write to, no global statement) -- otherwise an edited model regenerates the old schema'''
+    repo = ctx.repo
+    r = ctx.rule('C20-FRESH', 'the schema builders keep no state between generations', floor=12,
+                 oracle='property statement (editing the model changes exactly the corresponding declarations)')
+    mod = repo.module(XSD)
+    module_containers = {t.id for st in mod.tree.body if isinstance(st, ast.Assign) for t in st.targets if isinstance(t, ast.Name) and
+                         (isinstance(st.value, (ast.Dict, ast.List, ast.Set)) or
+                          (isinstance(st.value, ast.Call) and dotted(st.value.func) in ('dict', 'list', 'set', 'collections.defaultdict', 'collections.OrderedDict')))}
+    for fn in [n for n in mod.tree.body if isinstance(n, ast.FunctionDef)]:
+        q = XSD + ':' + fn.name
+        decs = [src(d) for d in fn.decorator_list]
+        r.check(not decs, '%s is a plain function (no caching / wrapping decorator)' % fn.name, fn, construct=q, key='decorator',
+                msg='%s is decorated with %s: a memoised builder returns the element it built for an earlier generation, so edits to the model '
+                    '(new enumerators, renamed or retyped data types) do not reach the regenerated schema' % (q, ', '.join(decs)))
+        muts = [d for d in list(fn.args.defaults) + [x for x in fn.args.kw_defaults if x is not None]
+                if isinstance(d, (ast.Dict, ast.List, ast.Set)) or (isinstance(d, ast.Call) and dotted(d.func) in ('dict', 'list', 'set'))]
+        r.check(not muts, '%s has no mutable default argument' % fn.name, fn, construct=q, key='mutable-default',
+                msg='%s has the mutable default `%s`, which survives between generations' % (q, src(muts[0]) if muts else ''))
+        glob = [n for n in ast.walk(fn) if isinstance(n, (ast.Global, ast.Nonlocal))]
+        writes = [n for n in ast.walk(fn) if (isinstance(n, ast.Subscript) and isinstance(n.ctx, (ast.Store, ast.Del)) and isinstance(n.value, ast.Name) and
+                                              n.value.id in module_containers) or
+                  (isinstance(n, ast.Call) and isinstance(n.func, ast.Attribute) and isinstance(n.func.value, ast.Name) and n.func.value.id in module_containers and
+                   n.func.attr in ('append', 'add', 'update', 'setdefault', 'extend', 'insert', 'pop', 'clear', 'remove'))]
+        r.check(not glob and not writes, '%s writes no module-level state' % fn.name, fn, construct=q, key='module-state',
+                msg='%s writes module-level state (%s): it survives between generations' % (q, src((glob + writes)[0]) if (glob or writes) else ''))
 
 
 def emission_loops(ctx):
